@@ -15,6 +15,9 @@ import (
 type methodCache[R CacheableResult] struct {
 	mu           sync.Mutex
 	cachedValues map[string]*cacheEntry[R]
+	// gen counts invalidations. A result obtained before an invalidation must
+	// not be stored after it: see [methodCache.putIfCurrent].
+	gen uint64
 }
 
 type cacheEntry[R CacheableResult] struct {
@@ -54,15 +57,37 @@ func (mc *methodCache[R]) put(key string, result R) {
 	}
 }
 
+// generation returns the current invalidation count, to be read before the
+// request whose result will be offered to [methodCache.putIfCurrent] is sent.
+func (mc *methodCache[R]) generation() uint64 {
+	mc.mu.Lock()
+	defer mc.mu.Unlock()
+	return mc.gen
+}
+
+// putIfCurrent stores result unless the cache was invalidated since gen was
+// read: the result may predate the change that caused the invalidation, and
+// caching it would serve stale data after the client was told about the change.
+func (mc *methodCache[R]) putIfCurrent(key string, result R, gen uint64) {
+	mc.mu.Lock()
+	current := mc.gen == gen
+	mc.mu.Unlock()
+	if current {
+		mc.put(key, result)
+	}
+}
+
 func (mc *methodCache[R]) invalidate() {
 	mc.mu.Lock()
 	defer mc.mu.Unlock()
+	mc.gen++
 	clear(mc.cachedValues)
 }
 
 func (mc *methodCache[R]) invalidateKey(key string) {
 	mc.mu.Lock()
 	defer mc.mu.Unlock()
+	mc.gen++
 	delete(mc.cachedValues, key)
 }
 
